@@ -13,24 +13,24 @@ import (
 
 // FullConf describes a real Server with mixed listeners.
 type FullConf struct {
-	Listeners []string `json:"listeners"` // tcp, tcptls, ws, wss, inproc
-	Enc       []string `json:"enc"`
-	Comp      []string `json:"comp"`
-	Buf       int      `json:"buf"`
-	RegMode   int      `json:"reg_mode"` // 0: name@srv.org/<instance>-<n>; 1: colliding-looking addresses (same name, numbered instance)
-	InProcFixed []string `json:"-"`      // reuse these in-process addresses (server restart)
+	Listeners   []string `json:"listeners"` // tcp, tcptls, ws, wss, inproc
+	Enc         []string `json:"enc"`
+	Comp        []string `json:"comp"`
+	Buf         int      `json:"buf"`
+	RegMode     int      `json:"reg_mode"` // 0: name@srv.org/<instance>-<n>; 1: colliding-looking addresses (same name, numbered instance)
+	InProcFixed []string `json:"-"`        // reuse these in-process addresses (server restart)
 }
 
 // CliSpec describes one real client.
 type CliSpec struct {
-	L      int    `json:"l"`       // listener index
-	High   bool   `json:"high"`    // lime.Client instead of a bare ClientChannel
-	Enc    string `json:"enc"`     // encryption selector: "", none, tls
-	Buf    int    `json:"buf"`     // channel buffer size
-	IPBuf  int    `json:"ip_buf"`  // in-process transport buffer
-	Auth   string `json:"auth"`    // guest, plain, key, external
-	Name   string `json:"name"`
-	ReadLimit int64 `json:"read_limit,omitempty"` // tcp: client transport read limit
+	L         int    `json:"l"`      // listener index
+	High      bool   `json:"high"`   // lime.Client instead of a bare ClientChannel
+	Enc       string `json:"enc"`    // encryption selector: "", none, tls
+	Buf       int    `json:"buf"`    // channel buffer size
+	IPBuf     int    `json:"ip_buf"` // in-process transport buffer
+	Auth      string `json:"auth"`   // guest, plain, key, external
+	Name      string `json:"name"`
+	ReadLimit int64  `json:"read_limit,omitempty"` // tcp: client transport read limit
 }
 
 var listenerKinds = []string{"tcp", "tcptls", "ws", "wss", "inproc"}
@@ -46,19 +46,19 @@ type SessInfo struct {
 
 // Full is a running real server plus bookkeeping.
 type Full struct {
-	w        *World
-	Conf     FullConf
-	H        *History
-	Server   *lime.Server
-	ServeRet *Flag
-	ServeErr error
-	BasePort int
-	InProc   []lime.InProcessAddr
-	Sess     map[string]*SessInfo
-	SessOrd  []string
-	regN     int
-	OnEnv    func(ctx context.Context, kind int, env interface{}, s lime.Sender) error
-	Links    []*simnet.Link
+	w            *World
+	Conf         FullConf
+	H            *History
+	Server       *lime.Server
+	ServeRet     *Flag
+	ServeErr     error
+	BasePort     int
+	InProc       []lime.InProcessAddr
+	Sess         map[string]*SessInfo
+	SessOrd      []string
+	regN         int
+	OnEnv        func(ctx context.Context, kind int, env interface{}, s lime.Sender) error
+	Links        []*simnet.Link
 	CliReadLimit int64
 }
 
@@ -144,8 +144,12 @@ func StartFull(w *World, conf FullConf, basePort int, setup func(b *lime.ServerB
 		}
 		b.MessagesHandlerFunc(func(ctx context.Context, m *lime.Message, s lime.Sender) error { return call(ctx, KMessage, m, s) })
 		b.NotificationsHandlerFunc(func(ctx context.Context, n *lime.Notification) error { return call(ctx, KNotification, n, nil) })
-		b.RequestCommandsHandlerFunc(func(ctx context.Context, c *lime.RequestCommand, s lime.Sender) error { return call(ctx, KRequest, c, s) })
-		b.ResponseCommandsHandlerFunc(func(ctx context.Context, c *lime.ResponseCommand, s lime.Sender) error { return call(ctx, KResponse, c, s) })
+		b.RequestCommandsHandlerFunc(func(ctx context.Context, c *lime.RequestCommand, s lime.Sender) error {
+			return call(ctx, KRequest, c, s)
+		})
+		b.ResponseCommandsHandlerFunc(func(ctx context.Context, c *lime.ResponseCommand, s lime.Sender) error {
+			return call(ctx, KResponse, c, s)
+		})
 	}
 	f.Server = b.Build()
 	go func() {
